@@ -287,7 +287,159 @@ func extractGroupBalancer(repo, root string) error {
 			return fmt.Errorf("assignTopic: cap %s not found", want)
 		}
 	}
+	// structural facts -----------------------------------------------------------------------------------------
+	// (a) the loops that enter a member under its topics skip a topic the member already listed
+	var guardSites []string
+	for _, site := range []struct {
+		fd   *ast.FuncDecl
+		name string
+	}{{fm, "findMembersByTopic"}, {funcNamed(f, "RackAffinityGroupBalancer", "AssignGroups"), "RackAffinityGroupBalancer.AssignGroups"}} {
+		if site.fd != nil && hasTopicGuard(site.fd) {
+			guardSites = append(guardSites, site.name)
+		}
+	}
+	fmt.Fprintf(&sb, "/-- functions whose `for i, t := range m.Topics` loop starts with `if topicListedBefore(m.Topics, i) { continue }` and then appends the member -/\ndef topicGuardSites : List String := [%s]\n", quoteJoin(guardSites))
+	fmt.Fprintf(&sb, "/-- topicListedBefore(topics, i) is `for _, t := range topics[:i] { if t == topics[i] { return true } }; return false` -/\ndef topicListedBeforeIsPrefixSearch : Bool := %v\n", isPrefixSearch(funcNamed(f, "", "topicListedBefore")))
+	// (b) consumergroup.go makeSyncGroupRequestV0: the per-member map is allocated inside the loop over the members
+	cgf, err := parser.ParseFile(fset, filepath.Join(repo, "consumergroup.go"), nil, 0)
+	if err != nil {
+		return err
+	}
+	fmt.Fprintf(&sb, "/-- makeSyncGroupRequestV0: `topics32 := make(map[string][]int32)` is the first statement of the body of `for memberID, topics := range memberAssignments` (a fresh map per member) and is defined nowhere else -/\ndef topics32FreshPerMember : Bool := %v\n", freshPerMember(funcNamed(cgf, "ConsumerGroup", "makeSyncGroupRequestV0")))
 	sb.WriteString("end KV.Gen.GroupBalancer\n")
 	out := filepath.Join(root, "lean", "KafkaVerif", "Gen", "GroupBalancerSel.lean")
 	return os.WriteFile(out, []byte(sb.String()), 0o644)
+}
+
+func quoteJoin(xs []string) string {
+	q := make([]string, len(xs))
+	for i, x := range xs {
+		q[i] = "\"" + x + "\""
+	}
+	return strings.Join(q, ", ")
+}
+
+// hasTopicGuard: the function has exactly one `for i, t := range X.Topics` loop, whose body is
+// `if topicListedBefore(X.Topics, i) { continue }` followed by one append assignment.
+func hasTopicGuard(fd *ast.FuncDecl) bool {
+	n, ok := 0, false
+	ast.Inspect(fd.Body, func(nd ast.Node) bool {
+		rs, isRange := nd.(*ast.RangeStmt)
+		if !isRange {
+			return true
+		}
+		sel, isSel := rs.X.(*ast.SelectorExpr)
+		if !isSel || sel.Sel.Name != "Topics" {
+			return true
+		}
+		n++
+		key, _ := rs.Key.(*ast.Ident)
+		if key == nil || key.Name == "_" || len(rs.Body.List) != 2 {
+			return true
+		}
+		ifs, isIf := rs.Body.List[0].(*ast.IfStmt)
+		if !isIf || ifs.Init != nil || ifs.Else != nil || len(ifs.Body.List) != 1 {
+			return true
+		}
+		br, isBr := ifs.Body.List[0].(*ast.BranchStmt)
+		call, isCall := ifs.Cond.(*ast.CallExpr)
+		if !isBr || br.Tok != token.CONTINUE || !isCall || len(call.Args) != 2 {
+			return true
+		}
+		fn, _ := call.Fun.(*ast.Ident)
+		a0, ok0 := atomName(call.Args[0])
+		x0, okx := atomName(rs.X)
+		a1, _ := call.Args[1].(*ast.Ident)
+		if fn == nil || fn.Name != "topicListedBefore" || !ok0 || !okx || a0 != x0 || a1 == nil || a1.Name != key.Name {
+			return true
+		}
+		as, isAs := rs.Body.List[1].(*ast.AssignStmt)
+		if isAs && len(as.Rhs) == 1 {
+			if c, isC := as.Rhs[0].(*ast.CallExpr); isC {
+				if id, _ := c.Fun.(*ast.Ident); id != nil && id.Name == "append" {
+					ok = true
+				}
+			}
+		}
+		return true
+	})
+	return n == 1 && ok
+}
+
+func isPrefixSearch(fd *ast.FuncDecl) bool {
+	if fd == nil || len(fd.Body.List) != 2 || fd.Type.Params == nil || len(fd.Type.Params.List) != 2 {
+		return false
+	}
+	ts, i := fd.Type.Params.List[0].Names[0].Name, fd.Type.Params.List[1].Names[0].Name
+	rs, ok := fd.Body.List[0].(*ast.RangeStmt)
+	ret, ok2 := fd.Body.List[1].(*ast.ReturnStmt)
+	if !ok || !ok2 || len(ret.Results) != 1 || len(rs.Body.List) != 1 {
+		return false
+	}
+	if id, _ := ret.Results[0].(*ast.Ident); id == nil || id.Name != "false" {
+		return false
+	}
+	sl, ok := rs.X.(*ast.SliceExpr)
+	val, _ := rs.Value.(*ast.Ident)
+	if !ok || val == nil || sl.Low != nil || sl.Max != nil {
+		return false
+	}
+	if x, _ := sl.X.(*ast.Ident); x == nil || x.Name != ts {
+		return false
+	}
+	if h, _ := sl.High.(*ast.Ident); h == nil || h.Name != i {
+		return false
+	}
+	ifs, ok := rs.Body.List[0].(*ast.IfStmt)
+	if !ok || ifs.Init != nil || ifs.Else != nil || len(ifs.Body.List) != 1 {
+		return false
+	}
+	r2, ok := ifs.Body.List[0].(*ast.ReturnStmt)
+	if !ok || len(r2.Results) != 1 {
+		return false
+	}
+	if id, _ := r2.Results[0].(*ast.Ident); id == nil || id.Name != "true" {
+		return false
+	}
+	c, err := toLean(ifs.Cond)
+	return err == nil && c.text == "("+val.Name+" == "+ts+"_"+i+")"
+}
+
+// freshPerMember: in makeSyncGroupRequestV0 the only definition of topics32 is the first statement of the body of the
+// range over memberAssignments.
+func freshPerMember(fd *ast.FuncDecl) bool {
+	if fd == nil {
+		return false
+	}
+	defs, inLoopFirst := 0, false
+	ast.Inspect(fd.Body, func(nd ast.Node) bool {
+		switch x := nd.(type) {
+		case *ast.AssignStmt:
+			for _, l := range x.Lhs {
+				if id, _ := l.(*ast.Ident); id != nil && id.Name == "topics32" {
+					defs++
+				}
+			}
+		case *ast.ValueSpec:
+			for _, nm := range x.Names {
+				if nm.Name == "topics32" {
+					defs++
+				}
+			}
+		case *ast.RangeStmt:
+			if id, _ := x.X.(*ast.Ident); id != nil && id.Name == "memberAssignments" && len(x.Body.List) > 0 {
+				if a, ok := x.Body.List[0].(*ast.AssignStmt); ok && a.Tok == token.DEFINE && len(a.Lhs) == 1 && len(a.Rhs) == 1 {
+					l, _ := a.Lhs[0].(*ast.Ident)
+					c, _ := a.Rhs[0].(*ast.CallExpr)
+					if l != nil && l.Name == "topics32" && c != nil {
+						if mk, _ := c.Fun.(*ast.Ident); mk != nil && mk.Name == "make" {
+							inLoopFirst = true
+						}
+					}
+				}
+			}
+		}
+		return true
+	})
+	return defs == 1 && inLoopFirst
 }
